@@ -10,20 +10,26 @@ from vf.runner import Collector
 
 ID = "C08"
 LEVEL = "exploration"
-RULE = ("For every covered ATen/prims overload registered in onnxscript's torch_lib registry (get_torchlib_ops) a per-family Hypothesis "
-        "strategy (vf/torchlib.py) draws ATen-level argument tuples: ranks 0-4, dims 0-5 (size-0 and size-1 on purpose), dtypes "
-        "{f16,f32,f64,i32,i64,u8,bool}, python scalar vs tensor operands, negative dims incl. -rank, keepdim, omitted trailing / keyword "
-        "optionals, every legal attribute combination. Each call is normalised the way torch.onnx's InsertTypePromotion pass rewrites the "
-        "FX node (operands cast to the rule's computation dtype, differing python scalars -> 0-d tensors, overload re-selected). Only calls "
-        "on which torch eager succeeds and whose tensor dtypes the function's own annotations admit are in the domain (others are counted "
-        "skips). The registered function is called with the arguments bound exactly like the exporter (positional by position, keyword-only "
-        "by name, torch.dtype->int, dtype=None->-1) under torch.onnx's OpRecorder, the recorded ir.Model is serialised and run on onnxruntime "
-        "(optimisations off); onnx.reference is the cross-check (an ORT-vs-reference split is a counted skip, never a violation; if ORT cannot "
-        "run a model that strict ONNX inference accepts, the reference evaluator alone decides). Oracle = torch eager on the same normalised "
-        "call: same output structure, dtype, shape, values within f16 1e-2 / f32 1e-4 rel + 1e-5*scale abs / f64 1e-7, ints and bools exact, "
-        "NaN/inf positions equal. Non-trivial = the call hits >=1 edge class (size-0 dim, rank 0, broadcast, negative dim, python scalar "
-        "operand, non-default attribute); distinct by (overload, argument signature without tensor data). Thorough tier adds random small "
-        "nn.Modules composed of covered ops exported with torch.onnx.export(dynamo=True) and compared with the module.")
+RULE = ("For every covered ATen/prims overload registered in onnxscript's torch_lib registry (get_torchlib_ops) a per-family generator "
+        "(vf/torchlib.py) builds ATen-level argument tuples from ONE Hypothesis-drawn integer per case (it seeds numpy's Generator, so a "
+        "case is a pure function of the drawn example; the dtype of the primary tensor is stratified over the op's dtype list): ranks 0-4, "
+        "dims 0-5 (size-0 and size-1 on purpose), dtypes {f16,f32,f64,i32,i64,u8,bool}, python scalar vs tensor operands, negative dims "
+        "incl. -rank, keepdim, omitted trailing / keyword optionals, every legal attribute combination. Each call is normalised the way "
+        "torch.onnx's InsertTypePromotion pass rewrites the FX node (operands cast to the rule's computation dtype, differing python scalars "
+        "-> 0-d tensors, overload re-selected). Only calls on which torch eager succeeds and whose tensor dtypes the function's own "
+        "annotations admit are in the domain (others are counted skips). The registered function is called with the arguments bound exactly "
+        "like the exporter (positional by position, keyword-only by name, torch.dtype->int, dtype=None->-1) under torch.onnx's OpRecorder; "
+        "the recorded ir.Model is serialised and run on onnxruntime (optimisations off, in a crash-isolated child process); onnx.reference is "
+        "the cross-check (an ORT-vs-reference split is a counted skip, never a violation; if ORT cannot run a model that strict ONNX "
+        "inference accepts, the reference evaluator alone decides). Oracle = torch eager on the same normalised call: same output "
+        "structure, dtype, shape, values within f16 1e-2 / f32 1e-4 rel + 1e-5*scale abs / f64 1e-7 (precision of the coarsest floating "
+        "input; normalisations get the 1/sqrt(eps) conditioning factor), ints and bools exact, NaN/inf positions equal. Non-trivial = the "
+        "call hits >=1 edge class (size-0 dim, rank 0, broadcast, negative dim, python scalar operand, non-default attribute); distinct by "
+        "(overload, argument signature without tensor data). Buckets: '<canonical qualified op>:<kind>:<key>', kind in {raises_during_trace, "
+        "ort_cannot_run, dtype, shape, values, structure}; key = exception@frame / failing ONNX op + message / dtype pair, or for "
+        "shape|values|structure the first argument class that always fails on that overload (else 'other'). Thorough tier adds random "
+        "2-5 step nn.Modules composed of covered ops exported with torch.onnx.export(dynamo=True) and compared with the module "
+        "(failing programs are reduced by dropping steps).")
 ASSUMPTIONS = ["torch eager (CPU) defines the expected result of an ATen call",
                "onnxruntime CPU (optimisations off) and onnx.reference implement ONNX semantics; NOT_IMPLEMENTED kernels are skips",
                "torch.onnx._internal.exporter (_building.OpRecorder, _core argument conversion, fx type-promotion rules) is the binding model",
@@ -32,7 +38,8 @@ FLOOR = {"quick": 3000, "thorough": 30000}
 TIMEOUT = {"quick": 900, "thorough": 4 * 3600}
 SHARDS = 16
 
-# Named regions excluded from generation while developing (count of redirected draws is reported); empty in the registered check.
+# Development aid: regions named "<qualified op>" or "<qualified op>|<class>" are not evaluated (draws falling into them are counted
+# with col.exclude); empty in the registered check - recorded findings are attributed through REGIONS instead.
 EXCLUDE: set = set()
 
 
@@ -64,7 +71,7 @@ def _op_seed(seed, q):
     return int.from_bytes(hashlib.sha256(f"{seed}:{q}".encode()).digest()[:8], "big") >> 1
 
 
-def root_key(tl, res):
+def root_key(tl, res, classes=None):
     """Root-cause key taken from the failure itself for the kinds where the message says what broke (None otherwise)."""
     kind, detail = res["verdicts"][0]
     if kind == "raises_during_trace":
@@ -78,7 +85,12 @@ def root_key(tl, res):
         return opn + ":" + re.sub(r"[^A-Za-z]+", "_", msg).strip("_")[:40]
     if kind == "dtype":
         m = re.search(r"torch (\w+) vs onnx (\w+)", detail)
-        return f"{m.group(1)}->{m.group(2)}" if m else "?"
+        if not m:
+            return "?"
+        cat = lambda n: re.sub(r"\d+", "", n)  # noqa: E731   float32 -> float, int64 -> int, uint8 -> uint
+        a, b = m.group(1), m.group(2)
+        pair = f"{a}->{b}" if cat(a) == cat(b) else f"{cat(a)}->{cat(b)}"
+        return "dtype_arg" if "attr:dtype" in (classes or ()) else pair
     return None
 
 
@@ -100,7 +112,7 @@ def bucket_of(tl, res, classes, label=None):
     info = res["info"]
     canon = info.get("canonical") or info.get("op_effective") or info["op"]
     kind = res["verdicts"][0][0]
-    key = root_key(tl, res)
+    key = root_key(tl, res, classes)
     if key is None:
         key = label if label is not None else tl.arg_class(classes).split("+")[0]
         if res.get("ref_only"):
@@ -111,7 +123,7 @@ def bucket_of(tl, res, classes, label=None):
 def evaluate(tl, case):
     """Run the oracle on one JSON case.  Returns (result dict, classes, key)."""
     args, kwargs = tl.decode_case(case)
-    res = tl.run_call(case["op"], args, kwargs, check_values=not case.get("no_values"))
+    res = tl.run_call(case["op"], args, kwargs, check_values=not case.get("no_values"), tol_scale=float(case.get("tol_scale", 1.0)))
     classes = list(case.get("tags", []))
     try:
         reg = tl.registry()
@@ -150,12 +162,20 @@ def run_shard(spec):
         n_in = [0]
 
         def body(case, q=q, fam=fam, seen=seen, failed=failed, viols=viols, n_in=n_in):
+            if EXCLUDE:
+                if q in EXCLUDE:
+                    col.exclude(q)
+                    return
+                hit = [e for e in EXCLUDE if e.startswith(q + "|") and e.split("|", 1)[1] in case.get("tags", [])]
+                if hit:
+                    col.exclude(hit[0])
+                    return
             res, classes = evaluate(tl, case)
             st_ = res["status"]
             if st_.startswith("skip:"):
                 why = st_[5:]
                 col.skip(why)
-                if why in ("declared_unsupported", "runtime_split_ort_vs_reference", "ort_fails_reference_agrees"):
+                if why in ("declared_unsupported", "runtime_split_ort_vs_reference", "ort_fails_reference_agrees", "runtime_crashed"):
                     lst = notes.setdefault(why, [])
                     if len(lst) < 3:
                         lst.append({"call": res["info"].get("call"), "note": res["info"].get(why) or res["info"].get("runtime_split") or res["info"].get("ort_error")})
